@@ -2,14 +2,32 @@
 {'harness': 'c02',
  'props': 'Props/C02.v',
  'models': ['Model/Value.v', 'Model/XPathFrag.v', 'Model/Decl.v', 'Model/Eval.v'],
- 'trusted': ['the xpath engine, custom functions, custom_parse functions and external properties enter the '
-             'theorems as Section variables (any deterministic functions); the model is RUN with the '
-             'fragment evaluator Model/XPathFrag.v and the functions the harness registers',
-             'strings.TrimSpace, strconv.ParseInt/ParseBool and (for plain decimal literals of <= 15 digits) '
-             'ParseFloat / %v are transcribed in Model/Value.v; encoding/json (Marshal of the result) is '
-             'stdlib, observed as decoded values',
-             'resultTypeConversion table and resolveKind order are extracted into Gen/Conv.v on every run'],
- 'assumptions': ['node IDs of one record tree are pairwise distinct (C12), custom functions are '
-                 'deterministic in (node, arguments)',
-                 'wf_b: the validated declaration tree has the shape validate produces (checked on every '
-                 'dumped tree)']}
+ 'trusted': ['PROVED (Props/C02.v, all closed under the global context): eval_matches_spec (for every accepted schema: '
+             'validate ds = VOk top -> eval_spec ds = eval_nocache top, the documented evaluation written from '
+             'doc/transforms.md + doc/xpath.md on the declarations as authored), emitted_value_is_documented (the same '
+             'with the transform cache on), eval_cache_transparent / caches_invisible_eval / eval_id_renaming, '
+             'validate_wf, validate_expand, validate_terminates, validate_no_duplicate_children (F28 class), '
+             'eval_order_independent / spec_order_independent, normalize_laws, print_trimmed, fqdn_key_roundtrip, '
+             'corner theorems, and the refutations of the pre-fix code (F2, F3, F19, F20, F28)',
+             'EXTRACTED from /repo on every run and used by the model / re-proved over: Gen/Conv.v '
+             '(resultTypeConversion table, resolveKind order, the conv* helper bodies pinned) and Gen/EvalShape.v '
+             '(conjuncts of xpathQueryNeeded, parts of the transform cache key, '
+             'statement order of validateDecl, sort key of validateObject / no sort in validateArray and '
+             'validateCustomFunc, nil -> reflect.Zero and AssignableTo in prepArgValues, the statement lists of '
+             'normalizeAndSaveValue / checkToSave, the kinds of isEmpty, normalizeAndReturnValue pinned); theorems '
+             'normalize_matches_source, source_shape, sibling_fqdn_order stop checking when a shape changes',
+             'COMPARED ONLY (correspondence + Go-side oracles, no theorem): that validate / ParseNode of the Go code '
+             'compute what Model/Decl.v / Model/Eval.v transcribe (check_case: validate ds = dumped tree, wf_b, hash '
+             'classes, eval cached / uncached / eval_spec = observed Read); the xpath fragment evaluator against '
+             'antchfx; javascript / many-records / cast streams (Go oracles only); float64 beyond 15 significant '
+             'digits, Inf / NaN / hex floats (Go-side cast oracle only)',
+             'the xpath engine, custom functions, custom_parse functions and external properties enter the theorems as '
+             'Section variables (any deterministic functions); strings.TrimSpace, strconv.ParseInt/ParseBool and '
+             'ParseFloat / %v for decimal literals (<= 15 digits, exponents, Go-syntax underscores) are transcribed '
+             'in Model/Value.v; encoding/json (Marshal of the result) is stdlib, observed as decoded values'],
+ 'assumptions': ['node IDs of one record tree are pairwise distinct (C12); custom functions are deterministic in '
+                 '(node, arguments)',
+                 'decl_nodup: an object of transform_declarations lists each field name once (it is unmarshalled '
+                 'into a Go map)',
+                 'fexists name = true -> fsigs name <> None: the functions validation accepts are the registered ones',
+                 'the xpath engine returns nodes of the record tree']}
